@@ -563,7 +563,8 @@ def make_conf(kw):
         kw['strategy'] = getattr(BeartypeStrategy, kw['strategy'])
     if 'violation_verbosity' in kw:
         kw['violation_verbosity'] = getattr(BeartypeViolationVerbosity, kw['violation_verbosity'])
-    for k in ('violation_type', 'violation_door_type', 'violation_param_type', 'violation_return_type'):
+    for k in ('violation_type', 'violation_door_type', 'violation_param_type', 'violation_return_type',
+              'warning_cls_on_decorator_exception'):
         if isinstance(kw.get(k), str):
             kw[k] = VIOLATION_CLASSES[kw[k]]
     if 'hint_overrides' in kw:
